@@ -1,5 +1,6 @@
 import Driver.Proto
 import Gotree.Model.C07
+import Gotree.Model.C07Cmd
 import Gotree.Spec.C07
 
 namespace Gotree.Driver.C07
@@ -41,10 +42,10 @@ def treeTags (t : T) : List String :=
 def nInner (t : T) : Nat := (t.splits.filter (! ·.tip)).length
 
 /-- hypotheses of `collapse_exact` -/
-def hypExact (rr : Bool) (t : T) : Bool := uniqueIds t && t.kids.length != 1 && (rr || (3 ≤ t.kids.length && t.noSingle))
+def hypExact (rr : Bool) (t : T) : Bool := uniqueIds t && t.kids.length != 1 && (rr || t.kids.length != 2)
 
 /-- hypotheses of `collapse_rooted` -/
-def hypRooted (rr : Bool) (t : T) : Bool := uniqueIds t && !rr && t.rooted && t.noSingle
+def hypRooted (rr : Bool) (t : T) : Bool := uniqueIds t && !rr && t.rooted
 
 /-- common tail of the three collapse operations and of `remove` -/
 def judgeCollapse (crit : Option Crit) (rr rt : Bool) (b : T) (outcome : String) (afterS : String)
@@ -113,6 +114,33 @@ def handleOp (op : String) (f : List String) : Verdict :=
         | some _, "ok" => ⟨.pass, tags, ""⟩
         | _, _ => ⟨.tie, tags, "outcome " ++ outcome⟩
     | _, _ => if (T.undump dump).isSome then ⟨.oracle, [], "outcome " ++ outcome⟩ else bad "C07.depthraw fields"
+  | "depthstale", [mns, mxs, rrs, rts, scen, _arg, _base, cur, storeds, outcome, after] =>
+    -- CollapseTopoDepth on stale subtree sizes: the model reads the SAME stored sizes
+    match mns.toInt?, mxs.toInt?, parseBool rrs, parseBool rts, T.undump cur,
+          (splitTerm "," storeds).mapM (fun x => match x.splitOn ":" with
+            | [a, b, c] => match a.toInt?, b.toNat?, c.toNat? with
+              | some i, some l, some r => some (i, l, r)
+              | _, _, _ => none
+            | _ => none) with
+    | some mn, some mx, some rr, some rt, some b, some stored =>
+      let fresh := b.splits.all fun s => storedSizes stored s.e.id == (b.tipNames.length - s.below.length, s.below.length)
+      let tags := treeTags b ++ ["depthstale", "scenario-" ++ scen] ++ tagIf fresh "fresh-sizes" ++ tagIf (!fresh) "stale-sizes"
+      if !(uniqueIds b) then ⟨.pass, "skip-dup" :: tags, ""⟩ else
+      let model := collapseDepthStored stored mn mx rr rt b
+      match T.undump after with
+      | none => if outcome.startsWith "panic" then ⟨.oracle, tags, "outcome " ++ outcome⟩ else bad "C07.depthstale after"
+      | some a =>
+        -- oracle: with fresh sizes the property's post-condition; on an error nothing is removed
+        if outcome == "err" && a.dump != b.dump then ⟨.oracle, tags, "error reported but the tree changed"⟩
+        else if fresh && b.uniqueTips && outcome != "ok" then ⟨.oracle, tags, "fresh indexes but outcome " ++ outcome⟩
+        else if fresh && b.uniqueTips && !(collapseOK (.depth mn mx) rt b a) then ⟨.oracle, tags, collapseWhy (.depth mn mx) rt b a⟩
+        else match model, outcome with
+          | none, "err" => ⟨.pass, "err" :: tags, ""⟩
+          | some m, "ok" =>
+            if !(obsEq m a) then ⟨.tie, tags, "model " ++ m.dump⟩
+            else ⟨.pass, tags ++ tagIf (m.dump == a.dump) "exact" ++ tagIf (nInner b > nInner a) "nontrivial", ""⟩
+          | _, _ => ⟨.tie, tags, "model " ++ (if model.isSome then "ok" else "err") ++ ", outcome " ++ outcome⟩
+    | _, _, _, _, _, _ => bad "C07.depthstale fields"
   | "remove", [rrs, rts, idss, dump, outcome, after] =>
     -- RemoveEdges with an arbitrary list of branches in an arbitrary order: the oracle is the
     -- collapse post-condition for the criterion "is in the list" expressed through ids, i.e.
@@ -143,9 +171,79 @@ def handleOp (op : String) (f : List String) : Verdict :=
     | _, _ => bad "C07.resolve fields"
   | _, _ => bad ("C07: unknown op " ++ op)
 
+/- ## whole commands (`C07.cmd`) -/
+
+def parseFlags (s : String) : Option CmdFlags :=
+  (splitTerm "," s).foldlM (fun (fl : CmdFlags) kv =>
+    match kv.splitOn "=" with
+    | ["l", v] => (parseRat? v).map fun x => { fl with l := some x }
+    | ["s", v] => (parseRat? v).map fun x => { fl with s := some x }
+    | ["m", v] => v.toInt?.map fun x => { fl with mn := some x }
+    | ["M", v] => v.toInt?.map fun x => { fl with mx := some x }
+    | ["root", "1"] => some { fl with root := true }
+    | ["tips", "1"] => some { fl with tips := true }
+    | _ => none) {}
+
+def parseRecs (s : String) : Option (List Rec) :=
+  (splitTerm "|" s).mapM fun x => if x == "ERR" then some none else (T.undump x).map some
+
+/-- the Spec predicate of the command on one (input, output) pair -/
+def cmdPairOK (cmd : String) (fl : CmdFlags) (b a : T) : Bool :=
+  if !b.uniqueTips || !(uniqueIds b) then true else
+  match cmd with
+  | "length" => collapseOK (.len (fl.l.getD 0)) fl.tips b a
+  | "support" => collapseOK (.sup (fl.s.getD 0)) false b a
+  | "depth" => collapseOK (.depth (fl.mn.getD 0) (fl.mx.getD 0)) fl.tips b a
+  | "resolve" => resolveOK b a
+  | _ => false
+
+def goodPrefix : List Rec → List T
+  | some t :: r => t :: goodPrefix r
+  | _ => []
+
+def handleCmd (f : List String) : Verdict :=
+  match f with
+  | [cmd, flagss, outmode, _seed, recss, exit, outss, drawss] =>
+    match parseFlags flagss, parseRecs recss, (splitTerm "|" outss).mapM T.undump, parseNatList drawss with
+    | some fl, some recs, some outs, some draws =>
+      let good := goodPrefix recs
+      let hasErr := good.length < recs.length
+      -- a record the depth command must refuse (duplicate tip names): counts like an error record
+      let good := if cmd == "depth" then good.takeWhile (fun t => !(reinitErr t)) else good
+      let stops := hasErr || good.length < (goodPrefix recs).length
+      let tags := ["cmd", "cmd-" ++ cmd, "out-" ++ outmode] ++ tagIf fl.root "rr" ++ tagIf fl.tips "rt" ++
+        tagIf (fl.l.isNone && fl.s.isNone && fl.mn.isNone && fl.mx.isNone) "default-threshold" ++
+        tagIf stops "stops-on-error" ++ tagIf (recs.length ≥ 2) "multi" ++
+        tagIf (good.length ≥ 1) "nontrivial" ++
+        tagIf (good.any fun t => anyPPosL t.kids) "ppos-nonzero"
+      -- oracle, model-free
+      if outs.length != good.length then
+        ⟨.oracle, tags, "the command wrote " ++ toString outs.length ++ " trees, " ++ toString good.length ++ " expected"⟩
+      else if (exit == "0") == stops then
+        ⟨.oracle, tags, "exit status " ++ exit ++ (if stops then " although a record is in error" else " although every record is fine")⟩
+      else if !((good.zip outs).all fun p => cmdPairOK cmd fl p.1 p.2) then
+        ⟨.oracle, tags, "a written tree violates the post-condition of the command"⟩
+      else
+        let model : Option (List T × Bool) :=
+          match cmd with
+          | "length" => some (cmdLength fl recs)
+          | "support" => some (cmdSupport fl recs)
+          | "depth" => some (cmdDepth fl recs)
+          | "resolve" => cmdResolve recs draws
+          | _ => none
+        match model with
+        | none => ⟨.tie, tags, "model undefined (draws do not follow the script " ++ toString (cmdResolveScript recs) ++ ")"⟩
+        | some (mo, ok) =>
+          if mo.length != outs.length || ok != (exit == "0") then ⟨.tie, tags, "model writes " ++ toString mo.length ++ " trees, ok=" ++ toString ok⟩
+          else if !((mo.zip outs).all fun p => obsEq p.1 p.2) then ⟨.tie, tags, "model tree differs"⟩
+          else ⟨.pass, tags, ""⟩
+    | _, _, _, _ => bad "C07.cmd fields"
+  | _ => bad "C07.cmd arity"
+
 /-- CLI cases carry the suffix `@cli` on the operation name (so that a replay goes through the
     binary again); they are judged exactly like the library cases. -/
 def handle (op : String) (f : List String) : Verdict :=
+  if op == "cmd" then handleCmd f else
   match op.splitOn "@" with
   | [o, "cli"] => let v := handleOp o f; { v with tags := "cli" :: v.tags }
   | _ => handleOp op f
